@@ -69,42 +69,15 @@ TypeOK == /\ WellFormedIR(ir)
                /\ ir.params[i].dbase \in DBase /\ ir.params[i].dann \in DAnn
           /\ Len(hops) <= MaxHops
 
-KindsOnPath == {hops[i][1] : i \in 1..Len(hops)}
-LossyDefOnPath == \E i \in 1..Len(hops) : ~DefExpr(hops[i][1], hops[i][2])
-AnyFillDef == {"none", "int0", "strEmpty", "float0", "boolF"}
-AnyFillTyp(o) == (IF TypeOfDef(o.def) # "none" THEN {TypeOfDef(o.def)} ELSE {})
-                 \cup {"NoneType"}      \* N3 on a None default (explicit, or filled by an earlier hop)
-                 \cup (IF "class" \in KindsOnPath THEN {"object"} ELSE {})
-                 \cup (IF "argparse" \in KindsOnPath THEN {"str", "OptStr"} ELSE {})
+KindsOnPath == PathKinds(hops)
+LossyDefOnPath == PathLossy(hops)
 
-\* types a slot may have after the kinds on the path: itself, a fill of an absent type, argparse's str fall-back for
-\* anything argparse cannot express, and (argparse) the Optional[..] wrapping of a None-defaulted parameter
-ChainTyps(o) ==
-  LET base0 == {o.typ} \cup (IF o.typ = "none" THEN AnyFillTyp(o) ELSE {})
-      base1 == base0 \cup (IF "argparse" \in KindsOnPath /\ (\E t \in base0 : ~ArgExpr(t)) THEN {"str", "OptStr"} ELSE {})
-  IN  base1 \cup (IF "argparse" \in KindsOnPath THEN {OptOf(t) : t \in base1} ELSE {})
-
-\* C05: a chain never invents, swaps or loses more than the kinds on it cannot express
-SlotRefines(o, c) ==
-  /\ c.name = o.name
-  /\ c.dbase = o.dbase
-  /\ c.typ \in ChainTyps(o)
-  /\ \/ c.def = o.def
-     \/ o.def = "absent" /\ c.def \in AnyFillDef
-     \/ LossyDefOnPath /\ c.def \in {"absent"} \cup AnyFillDef
-     \/ "argparse" \in KindsOnPath /\ o.def = "none" /\ c.def \in {"absent"} \cup AnyFillDef
-  /\ (c.dann # "diff")
+\* C05: a chain never invents, swaps or loses more than the kinds on it cannot express (operators in ConvertRel.tla)
 ChainRefines ==
   /\ Names(ir) = Names(orig)
   /\ ir.doc = orig.doc
-  /\ \A i \in 1..Len(orig.params) : SlotRefines(orig.params[i], ir.params[i])
-  /\ (ir.ret.present => orig.ret.present)
-  /\ (orig.ret.present /\ ~ir.ret.present => "argparse" \in KindsOnPath)
-  /\ (ir.ret.present => /\ ir.ret.dbase = orig.ret.dbase
-                        /\ \/ ir.ret.def = orig.ret.def
-                           \/ LossyDefOnPath /\ ir.ret.def \in {"absent"} \cup AnyFillDef
-                           \/ orig.ret.def = "absent" /\ "class" \in KindsOnPath /\ ir.ret.def \in AnyFillDef
-                        /\ (ir.ret.typ = orig.ret.typ \/ (orig.ret.typ = "none" /\ ir.ret.typ = "object")))
+  /\ \A i \in 1..Len(orig.params) : SlotRefines(hops, orig.params[i], ir.params[i])
+  /\ RetRefines(hops, orig.ret, ir.ret)
 
 \* C01-C04: on what a kind expresses exactly the hop relation is the identity (guards against a permissive spec)
 Exact(k, dd, s) == /\ s.typ # "none" /\ (k = "argparse" => (ArgExpr(s.typ) /\ s.def # "none"))
